@@ -30,6 +30,9 @@ def cases(seed, tier, broken=()):
         if out[-1]["tiny"]:
             out[-1]["standardize"] = bool(i % 2 == 0) or out[-1]["standardize"]
             out[-1]["scale"] = min(out[-1]["scale"], 1.0)
+        elif i % 6 == 4:
+            # integer-valued input stored with an integer dtype (counts, packed fields): "in physical units" is not "in the input's dtype"
+            out[-1].update(int_input=True, scale=1.0)
     # latitude weighting over the whole sphere: grids that contain both poles (weight sqrt(cos 90°) ~ 8e-9, still undone)
     for i in range(max(4, n // 10)):
         out.append({"kind": "poles", "cls": ["EOF", "MCA", "ComplexEOF", "ComplexMCA"][i % 4], "mseed": int(rng.integers(0, 2**31)), "standardize": bool(i % 2)})
@@ -73,6 +76,8 @@ def _data(case, cls, n=24, ny=3, nx=4, nx2=3):
         v = rng.normal(size=(n, ny, nx)) * rng.uniform(0.5, 2.0, size=(1, ny, nx)) * sc + off * sc
         if cplx:
             v = v + 1j * rng.normal(size=(n, ny, nx)) * sc
+        elif case.get("int_input"):
+            v = np.round(v * 10.0).astype(np.int64)
         lat = np.linspace(-70, 65, ny)
         if case.get("desc_lat"):
             lat = lat[::-1].copy()  # north -> south, as reanalysis grids are stored: an UNSORTED feature coordinate
@@ -89,6 +94,8 @@ def _data(case, cls, n=24, ny=3, nx=4, nx2=3):
     if zoo.takes_two(cls):
         Y = field(ny, nx2, -2.0) + 0.6 * X.isel(lon=slice(0, nx2)).values
         Y.name = "g"
+        if case.get("int_input") and not cplx:
+            Y = Y.round().astype(np.int64)
         if case.get("tiny"):
             # cross-set: whitening needs a well-conditioned covariance (C16), so no constant cell, and a small-unit cell
             # only where standardisation brings it back to O(1)
